@@ -25,6 +25,7 @@ func runC02(c *Ctx) {
 	c.Rule("O2.6", "start once: MarkStarted panics on the true edge of started.Swap(true); start/finish times are written only inside startOnce.Do closures")
 	c.Rule("O2.7", "finish callback fires on both signals, once: onFinish is only ever invoked through onFinishOnce.Do, reached exactly on the !ok edge of Next and on the left==0 edge of Left")
 	c.Rule("O2.9", "the composite reports 'finished' only from its last part: every path of compositeSchedule.Next that returns a part's ok=false (not the recursive retry) proves through the comparisons taken on it that one part was left when that part's Next was called (len(scheds) read in the same critical section, minus startNext shifts, <= 1)")
+	c.Rule("O2.10", "state is published before the started flag: in a schedule whose methods read fields after asking IsStarted(), every function that calls MarkStarted() writes those fields (directly or in the closure it gives to startOnce.Do) before the call - a concurrent Left() that sees 'started' must not see the state of the constructor")
 	c.Rule("O2.8", "doAtSchedule.Left clamps: returns 0 on the n-i < 0 edge and n-i otherwise")
 	P := c.P
 	sp := P.SSAPkg("core/schedule")
@@ -462,6 +463,14 @@ func runC02(c *Ctx) {
 							okP = true
 						}
 					}
+					// equivalent: panic on the false edge of started.CompareAndSwap(false, true)
+					if cl != nil && !bf.Val && CalleeObj(&cl.Call) != nil && (CalleeObj(&cl.Call).Name() == "CompareAndSwap" || CalleeObj(&cl.Call).Name() == "CAS") && len(cl.Call.Args) >= 3 {
+						o, isO := ConstCond(cl.Call.Args[len(cl.Call.Args)-2])
+						nw, isN := ConstCond(cl.Call.Args[len(cl.Call.Args)-1])
+						if isO && isN && !o && nw {
+							okP = true
+						}
+					}
 				}
 			}
 			c.Check(okP, "O2.6", fk(ms)+":panics-on-second-start", ms.Pos(), "MarkStarted must panic on the true edge of started.Swap(true)")
@@ -506,6 +515,8 @@ func runC02(c *Ctx) {
 		}
 		c.Floor("O2.6", "writes of schedule start/finish times", n, 4)
 	}
+	// ---------------- O2.10
+	c02PublishBeforeStarted(c, pkgFns)
 	// ---------------- O2.7
 	{
 		cbNext := P.Func("core/coreutil", "callbackOnFinishSchedule", "Next")
@@ -847,4 +858,170 @@ func pathBlocks(p *Path) string {
 		idx[i] = b.Index
 	}
 	return PathString(idx)
+}
+
+
+// c02PublishBeforeStarted decides O2.10.
+func c02PublishBeforeStarted(c *Ctx, pkgFns []*ssa.Function) {
+	P := c.P
+	isStartSyncCall := func(in ssa.Instruction, name string) bool {
+		cc := CC(in)
+		if cc == nil || cc.IsInvoke() {
+			return false
+		}
+		f := CalleeObj(cc)
+		return f != nil && f.Name() == name && RecvTypeName(f) == "StartSync"
+	}
+	recvStruct := func(fn *ssa.Function) (*types.Named, *types.Struct) {
+		root := fn
+		for root.Parent() != nil {
+			root = root.Parent()
+		}
+		if root.Signature.Recv() == nil {
+			return nil, nil
+		}
+		t := root.Signature.Recv().Type()
+		if p, ok := t.(*types.Pointer); ok {
+			t = p.Elem()
+		}
+		n, _ := t.(*types.Named)
+		if n == nil {
+			return nil, nil
+		}
+		st, _ := n.Underlying().(*types.Struct)
+		return n, st
+	}
+	// fields of T touched by instruction in (through a FieldAddr/Field on a T value)
+	fieldTouched := func(in ssa.Instruction, T *types.Named) *types.Var {
+		var fv *types.Var
+		for _, op := range in.Operands(nil) {
+			if op == nil || *op == nil {
+				continue
+			}
+			if fa, ok := (*op).(*ssa.FieldAddr); ok {
+				if _, tn := NamedOf(fa.X.Type()); tn == T.Obj().Name() {
+					fv = derefStructOf(fa.X.Type()).Field(fa.Field)
+				}
+			}
+		}
+		if fa, ok := in.(*ssa.FieldAddr); ok {
+			if _, tn := NamedOf(fa.X.Type()); tn == T.Obj().Name() {
+				fv = derefStructOf(fa.X.Type()).Field(fa.Field)
+			}
+		}
+		return fv
+	}
+	// R[T] = fields accessed by the methods of T that ask IsStarted()
+	guarded := map[*types.Named]map[*types.Var]bool{}
+	for _, g := range pkgFns {
+		asks := false
+		EachInstr(g, func(in ssa.Instruction) {
+			if isStartSyncCall(in, "IsStarted") {
+				asks = true
+			}
+		})
+		T, _ := recvStruct(g)
+		if !asks || T == nil || T.Obj().Name() == "StartSync" {
+			continue
+		}
+		EachInstr(g, func(in ssa.Instruction) {
+			if fv := fieldTouched(in, T); fv != nil && !fv.Embedded() {
+				if guarded[T] == nil {
+					guarded[T] = map[*types.Var]bool{}
+				}
+				guarded[T][fv] = true
+			}
+		})
+	}
+	isWrite := func(in ssa.Instruction, T *types.Named) *types.Var {
+		if st, ok := in.(*ssa.Store); ok {
+			if fa, ok := st.Addr.(*ssa.FieldAddr); ok {
+				if _, tn := NamedOf(fa.X.Type()); tn == T.Obj().Name() {
+					return derefStructOf(fa.X.Type()).Field(fa.Field)
+				}
+			}
+			return nil
+		}
+		cc := CC(in)
+		if cc == nil || cc.IsInvoke() || CalleeObj(cc) == nil || len(cc.Args) == 0 {
+			return nil
+		}
+		switch CalleeObj(cc).Name() {
+		case "Store", "Swap", "CompareAndSwap", "CAS", "Add", "Sub", "Inc", "Dec", "Toggle":
+		default:
+			return nil
+		}
+		var fv *types.Var
+		SliceAny(cc.Args[0], func(r ssa.Value) bool {
+			if fa, ok := r.(*ssa.FieldAddr); ok {
+				if _, tn := NamedOf(fa.X.Type()); tn == T.Obj().Name() {
+					fv = derefStructOf(fa.X.Type()).Field(fa.Field)
+					return true
+				}
+			}
+			if u, ok := r.(*ssa.UnOp); ok {
+				if fa, ok := u.X.(*ssa.FieldAddr); ok {
+					if _, tn := NamedOf(fa.X.Type()); tn == T.Obj().Name() {
+						fv = derefStructOf(fa.X.Type()).Field(fa.Field)
+						return true
+					}
+				}
+			}
+			return false
+		})
+		return fv
+	}
+	nMark := 0
+	for _, g := range pkgFns {
+		T, _ := recvStruct(g)
+		if T == nil || guarded[T] == nil {
+			continue
+		}
+		// events of g in order: mark calls, writes, and calls of startOnce.Do(closure) standing for the closure's marks/writes
+		type ev struct {
+			in    ssa.Instruction
+			mark  bool
+			write *types.Var
+		}
+		var evs []ev
+		EachInstr(g, func(in ssa.Instruction) {
+			if isStartSyncCall(in, "MarkStarted") {
+				evs = append(evs, ev{in, true, nil})
+			}
+			if fv := isWrite(in, T); fv != nil && guarded[T][fv] {
+				evs = append(evs, ev{in, false, fv})
+			}
+			if cl, ok := in.(*ssa.Call); ok && MatchCC(&cl.Call, sOnceDo) {
+				if mc, ok := Strip(cl.Call.Args[1]).(*ssa.MakeClosure); ok {
+					EachInstr(mc.Fn.(*ssa.Function), func(i2 ssa.Instruction) {
+						if isStartSyncCall(i2, "MarkStarted") {
+							evs = append(evs, ev{in, true, nil})
+						}
+						if fv := isWrite(i2, T); fv != nil && guarded[T][fv] {
+							evs = append(evs, ev{in, false, fv})
+						}
+					})
+				}
+			}
+		})
+		for _, m := range evs {
+			if !m.mark {
+				continue
+			}
+			if isStartSyncCall(m.in, "MarkStarted") {
+				nMark++
+			}
+			late := ""
+			for _, w := range evs {
+				if w.write != nil && w.in != m.in && CanReach(m.in, w.in) {
+					late = w.write.Name() + " at " + P.Fset.Position(w.in.Pos()).String()
+				}
+			}
+			if isStartSyncCall(m.in, "MarkStarted") || late != "" {
+				c.Check(late == "", "O2.10", fk(g)+":state-published-before-MarkStarted", m.in.Pos(),
+					"the schedule is marked started before "+late+" is written: a concurrent reader that asks IsStarted() first sees the constructor's value")
+			}
+		}
+	}
+	c.Floor("O2.10", "MarkStarted calls in schedules whose readers ask IsStarted()", nMark, 2)
 }
